@@ -30,6 +30,8 @@ CookieKinds == {"none", "c8", "valid", "stale", "badlen"}
 EcsKinds    == {"none", "v4_24", "v4_32", "v6_56", "fam0", "badfam"}
 Sizes       == {0, 512, 1232, 4096}
 ContentKinds == {"pos", "signed", "nx", "nodata", "ede", "big", "servfail", "upecs", "upcookie", "cname",
+                 "cnamesplit",       \* the alias alone, validated (AD=1); its target is a second, unvalidated exchange:
+                                     \* the two are cached apart and every later hit is COMPOSED (AD = AND of the pieces = 0)
                  "hosts", "as112"}   \* answered ahead of the cache: hosts file entry, AS112 empty zone
 LocalContent == {"hosts", "as112"}
 
@@ -122,7 +124,7 @@ Ladder(p, sentEcs) ==
   ELSE "miss"
 
 (* ---- reply shaping --------------------------------------------------- *)
-BodyHasDnssec(c) == c = "signed"
+BodyHasDnssec(c) == c \in {"signed", "cnamesplit"}
 Reply(p, ng, rcodeClass, body, fromCancel) ==
   [kind      |-> "reply",
    rcode     |-> rcodeClass,
